@@ -1277,7 +1277,7 @@ def err_inventory(prog, fn, table_keys=(), depth=0):
             return None
         H = prog.fns.get(src[1])
         name = src[1].rsplit("::", 1)[-1]
-        if H is not None and not (H.j.get("output") or "").startswith("core::result::Result<"):
+        if H is not None and (H.j.get("output") or "").startswith("core::option::Option<"):
             return None      # a look-up returning Option: the refusal is the caller's own (named by its variant)
         if H is not None and H.has_body and H.crate.startswith("frost"):
             if src[1] not in table_keys and H.j.get("vis", "") != "Public" and depth < 2 and not H.j.get("impl_trait"):
@@ -1286,13 +1286,14 @@ def err_inventory(prog, fn, table_keys=(), depth=0):
                 return True
             add("?:" + name)
             return True
-        if src[1].startswith(("frost", "<frost")):   # trait method on the ciphersuite / unresolved workspace call
+        if src[1].lstrip("<").startswith("frost") or " as frost" in src[1]:   # trait method on the ciphersuite / unresolved workspace call
             add("?:" + name)
             return True
         return None
 
     # failure arms: blocks reachable only through the failure edge of a fallible workspace call
     fail_region = {}
+    fail_size = {}
     for (e, fa) in v.facts:
         if fa[0] == "succ" and not fa[2]:
             src = source_call(fa[1])
@@ -1300,8 +1301,13 @@ def err_inventory(prog, fn, table_keys=(), depth=0):
                 others = [e2 for (e2, f2) in v.facts if e2[0] == e[0] and f2[0] == "succ" and f2[2]]
                 # (without re-entering the test: in a loop the failure arm is reachable again from the success side)
                 reach_ok = set().union(*[fn.reach(e2[1], stop=frozenset({e[0]})) - {e[0]} for e2 in others]) if others else set()
-                for b in fn.reach(e[1]) - reach_ok:
-                    fail_region.setdefault(b, src)
+                if src[1].endswith("Iterator::next"):
+                    continue        # an exhausted iterator is not a failing callee
+                region = fn.reach(e[1]) - reach_ok
+                for b in region:
+                    if b not in fail_region or len(region) < fail_size[b]:
+                        fail_region[b] = src      # the innermost failure arm wins
+                        fail_size[b] = len(region)
     for (b, k, w) in ret_writes(fn):
         if k == "err":
             t = v.cx.operand(w["ops"][0])
@@ -1321,7 +1327,7 @@ def err_inventory(prog, fn, table_keys=(), depth=0):
                 add("V:" + (str(e[3]) if e[0] == "agg" else "?"))
             elif from_callee(src):
                 pass
-            elif isinstance(src, tuple) and src and src[0] == "call" and not src[1].startswith(("frost", "<frost")) and \
+            elif isinstance(src, tuple) and src and src[0] == "call" and not (src[1].lstrip("<").startswith("frost") or " as frost" in src[1]) and \
                     any(x[0] == "closure" and x[1] in prog.fns for x in subterms(src)):
                 # `iter.map(|x| { ..? }).collect::<Result<_, _>>()?`, try_for_each, try_fold: the error comes from the closure
                 for x in subterms(src):
